@@ -363,7 +363,22 @@ type ValueOpts struct {
 	MaxElems int
 	// Big: now and then a collection of 9-40 elements (map growth, long blocks).
 	Big bool
+	// NoHuge: no slices of tens of thousands of items (set for what sits inside a collection).
+	NoHuge bool
 }
+
+// cheapElem: element types of which a hundred thousand cost next to nothing.
+func cheapElem(t spec.TypeSpec) bool {
+	switch t.K {
+	case "bool", "int", "int16", "int32", "int64", "float32", "float64", "nullInt", "nullBool", "nullFloat":
+		return true
+	case "ptr":
+		return cheapElem(*t.Elem)
+	}
+	return false
+}
+
+func (o ValueOpts) inner() ValueOpts { o.NoHuge = true; return o }
 
 // Value draws a value of the type.
 func Value(t *rapid.T, ts spec.TypeSpec, o ValueOpts) spec.ValueSpec {
@@ -446,7 +461,11 @@ func Value(t *rapid.T, ts spec.TypeSpec, o ValueOpts) spec.ValueSpec {
 				}
 			}
 			for i := 0; i < n; i++ {
-				v.Elems = append(v.Elems, Value(t, *ts.Elem, o))
+				v.Elems = append(v.Elems, Value(t, *ts.Elem, o.inner()))
+			}
+			if o.Big && !o.NoHuge && cheapElem(*ts.Elem) && Uniform(t, "hugeslice", 120) == 0 {
+				// more items than fit a 16-bit count, a few drawn ones in turn
+				v.Rep = []int{65535, 65536, 65537, 70001, 131073}[Uniform(t, "hugeLen", 5)]
 			}
 		}
 	case "map":
@@ -473,7 +492,7 @@ func Value(t *rapid.T, ts spec.TypeSpec, o ValueOpts) spec.ValueSpec {
 				}
 				seen[string(k)] = true
 				v.Keys = append(v.Keys, k)
-				v.Elems = append(v.Elems, Value(t, *ts.Elem, o))
+				v.Elems = append(v.Elems, Value(t, *ts.Elem, o.inner()))
 			}
 		}
 	case "struct":
@@ -517,6 +536,7 @@ func Degrade(t *rapid.T, ts spec.TypeSpec, v spec.ValueSpec) spec.ValueSpec {
 			return spec.ValueSpec{Elems: []spec.ValueSpec{}}
 		}
 		out.Elems = nil
+		out.Rep = 0 // one huge slice per sequence is enough
 		for _, e := range v.Elems {
 			if rapid.IntRange(0, 4).Draw(t, "dropElem") == 0 {
 				continue
